@@ -305,25 +305,32 @@ def run_shards(ctx, rep, tag, header, check_fn, cases, shard=400, timeout=600, c
         files.append((p, k, len(chunk)))
     res = coqc_many([f[0] for f in files], timeout)
     bad = []
+    failing = []
     for p, k, n in files:
         rc, out = res[p]
         name = f"corr_{tag}_{k // shard}"
-        if rc == 0:
-            rep.oblig(name, True)
-            continue
-        rep.oblig(name, False)
-        # second pass: name the failing indices
+        rep.oblig(name, rc == 0)
+        if rc != 0:
+            failing.append((p, k, out))
+    # second pass (parallel, at most 6 shards): name the failing indices
+    diag = {}
+    for p, k, out in failing[:6]:
         txt = open(p).read()
         txt = txt[:txt.rindex("Example corr")] + f"Eval vm_compute in bad_indices {check_fn} cases.\n"
         p2 = p[:-2] + "_diag.v"
         open(p2, "w").write(txt)
-        rc2, out2 = coqc(p2, timeout)
+        diag[p2] = (k, out)
+    res2 = coqc_many(list(diag), timeout)
+    for p2, (k, out) in diag.items():
+        rc2, out2 = res2[p2]
         m = re.search(r"=\s*\[(.*?)\]\s*:\s*list nat", out2, flags=re.S)
         if rc2 != 0 or not m:
             rep.extra.setdefault("shard_errors", []).append(out[-1500:] + "\n--\n" + out2[-1500:])
             return None
         idx = [int(x.replace("%nat", "").strip()) for x in m.group(1).split(";") if x.strip()]
         bad.extend(k + i for i in idx)
+    if len(failing) > 6:
+        rep.extra["failing_shards_not_diagnosed"] = len(failing) - 6
     rep.checker_cmds.append(f"coqc cases_{tag}_*.v  ({len(files)} shard(s), Example closed by vm_compute)")
     return bad
 
